@@ -122,6 +122,7 @@ pub fn strategy() -> impl Strategy<Value = MultiCase> {
     let tail_step = prop_oneof![
         3 => (any::<u16>(), cancel2).prop_map(|(op, cancel)| MStep::Drop { op, cancel }),
         2 => (any::<u16>(), any::<bool>(), any::<u16>()).prop_map(|(op, ok, frac)| MStep::Post { op, ok, last: false, frac }),
+        3 => (any::<u16>(), any::<bool>()).prop_map(|(op, fresh_waker)| MStep::Poll { op, fresh_waker }),
     ];
     let zc_kind = prop_oneof![(1u16..600).prop_map(|len| MKind::SendZc { len }), (0u16..300, 1u16..300).prop_map(|(a, b)| MKind::SendVecZc { a, b })];
     let kind2 = prop_oneof![Just(MKind::Accept), Just(MKind::Pollable), (1u16..300).prop_map(|len| MKind::Write { len }), (1u16..600).prop_map(|len| MKind::SendZc { len })];
@@ -458,17 +459,35 @@ impl<'c> Exec<'c> {
         }
     }
 
-    fn poll(&mut self, raw: u16, fresh_waker: bool) {
-        if self.ring_gone {
-            self.ctx.skipped_steps += 1;
-            return;
+    /// The kernel ended operation `i` with an interruption that a10 answers
+    /// by re-issuing it at its next poll.
+    fn restart_is_due(&self, i: usize) -> bool {
+        let is_fault = |res: i32, flags: u32| (res == -libc::EINTR || res == -libc::ECANCELED) && flags & abi::CQE_F_MORE == 0;
+        let zc = matches!(self.ops[i].kind, MKind::SendZc { .. } | MKind::SendVecZc { .. });
+        if self.is_multishot(i) || !zc {
+            self.ops[i].delivered.front().is_some_and(|x| is_fault(x.res, x.flags))
+        } else {
+            self.ops[i].final_consumed && self.ops[i].zc_first.is_some_and(|r| r == -libc::EINTR || r == -libc::ECANCELED)
         }
-        let c: Vec<usize> = (0..self.ops.len()).filter(|i| self.ops[*i].fut.is_some() && !self.ops[*i].done).collect();
+    }
+
+    fn poll(&mut self, raw: u16, fresh_waker: bool) {
+        // After the Ring is gone only operations the kernel already has are
+        // polled (nothing can be submitted or re-issued any more): what the
+        // Ring's drop consumed is handed out, everything else stays pending,
+        // and memory the kernel still holds stays where it is.
+        let c: Vec<usize> = (0..self.ops.len()).filter(|i| self.ops[*i].fut.is_some() && !self.ops[*i].done && (!self.ring_gone || (self.ops[*i].started && !self.restart_is_due(*i)))).collect();
         if c.is_empty() {
             self.ctx.skipped_steps += 1;
             return;
         }
         let i = c[pick_index(raw, c.len())];
+        if self.ring_gone {
+            self.classes.push("polled-after-ring-drop");
+            if !self.ops[i].final_posted {
+                self.classes.push("polled-after-ring-drop-while-kernel-holds");
+            }
+        }
         self.sync();
         let (head, tail, entries) = self.ring_words();
         let full = tail.wrapping_sub(head) >= entries;
@@ -532,6 +551,12 @@ impl<'c> Exec<'c> {
         let published = tail_after.wrapping_sub(tail);
         let name = format!("operation {i} ({:?})", self.ops[i].kind);
         self.ops[i].last_poll_pending = matches!(got, Got::Pending);
+        if self.ring_gone {
+            self.sync();
+            if self.ops[i].started && !self.ops[i].final_posted {
+                self.check_live(i, "by a poll after the Ring was dropped, although the kernel has not posted the operation's final completion");
+            }
+        }
 
         if !self.ops[i].started {
             // First submission.
